@@ -415,6 +415,7 @@ def seeded_edits(props):
 for _prop, _rid in (("C18", "R18.21"), ("C14", "R14.31"), ("C08", "R8.24")):
     mut(_prop, "foreign-state-on-group", E + "FEM/Operators/Linear.py", "    Ne, nPg = vec_e_pg.shape[:2]\n    f = FeArray.broadcast(f, Ne, nPg)\n", "    Ne, nPg = vec_e_pg.shape[:2]\n    groupElem._last_source = f\n    f = FeArray.broadcast(f, Ne, nPg)\n", _rid)
 
+mut("C20", "gmsh-session-kept", E + "FEM/_mesher.py", "        list_dict_groupElem = self.__Get_dict_groupElems(Nproc, coef)\n\n        gmsh.finalize()\n", "        list_dict_groupElem = self.__Get_dict_groupElems(Nproc, coef)\n\n        gmsh.clear()\n", "R20.14")
 # ---------------------------------------------------------------- round 6: behaviour-preserving rewrites of what the new interpretive rules read
 same("C03", "r6-buffer-fill-correct-offsets", E + "Simulations/_simu.py", "        data = np.concatenate([dict_group_data[g].ravel() for g in groups])\n",
      "        list_X_e = [np.asarray(dict_group_data[g]) for g in groups]\n        sizes = [X_e.size for X_e in list_X_e]\n        starts = [sum(sizes[:k]) for k in range(len(sizes))]\n        data = np.empty(sum(sizes), dtype=np.result_type(*list_X_e))\n        for X_e, start in zip(list_X_e, starts):\n            data[start : start + X_e.size] = X_e.ravel()\n")
